@@ -19,7 +19,8 @@ PROPERTY = 'C13'
 RULE = ('every public callable reachable from the bct namespace (152; found by introspection at run time) x connection '
         'matrices {binary digraph, binary graph, weighted positive symmetric, weighted positive asymmetric, weighted signed '
         'symmetric} x {zero diagonal, non-zero diagonal} on 5 nodes (6 for the undirected binary one, disconnected variants '
-        'included) x community vectors {1..k, non-contiguous, zero-based} x every value of each boolean/enum flag; randomised '
+        'included), plus for single-matrix programs every binary 3-node digraph and every signed symmetric 3-node matrix with '
+        'zero / non-zero diagonal, x community vectors {1..k, non-contiguous, zero-based} x every value of each boolean/enum flag; randomised '
         'routines with an integer seed on the C05 argument table; a program (function x flag combination) is non-trivial when '
         'it returned normally on at least one input')
 ASSUMPTIONS = ['copy=False calls of the thresholding/conversion utilities are exempt by definition (covered by C17)',
@@ -58,8 +59,31 @@ def matrices():
     return out
 
 
+_SMALL = {}
+
+
+def small_matrices():
+    """every binary 3-node digraph and every 3-node matrix over {0,1,-1} that is symmetric, each with a
+    zero and a non-zero diagonal (inputs for the single-matrix programs)."""
+    if not _SMALL:
+        from bctmc import smallscope as ss
+        for idx in range(ss.dir_count(3, (0, 1))):
+            A = ss.dir_graph(3, (0, 1), idx)
+            _SMALL['bd3_%d' % idx] = A
+            Ad = A.copy()
+            np.fill_diagonal(Ad, [2.0, 0.0, 1.0])
+            _SMALL['bd3_%d+diag' % idx] = Ad
+        for idx in range(ss.und_count(3, (0, 1, -1))):
+            A = ss.und_graph(3, (0, 1, -1), idx) * 0.5
+            _SMALL['su3_%d' % idx] = A
+            Ad = A.copy()
+            np.fill_diagonal(Ad, [1.0, -1.0, 0.5])
+            _SMALL['su3_%d+diag' % idx] = Ad
+    return _SMALL
+
+
 def community_vectors(n):
-    base = np.array(([1, 1, 2, 2, 3, 3, 3])[:n])
+    base = np.array(([1, 1, 2, 2, 3, 3, 3])[:n]) if n > 3 else np.array([1, 2, 2][:n])
     return {'contiguous': base, 'noncontiguous': base * 10 + 7, 'zero_based': base - 1}
 
 
@@ -118,7 +142,9 @@ def build_programs():
             label = nm + ('[' + ','.join('%s=%s' % kv for kv in kw.items()) + ']' if kw else '')
 
             def b(mats, rest=rest, kw=kw):
-                for mname, M in mats.items():
+                allm = dict(mats)
+                allm.update(small_matrices())
+                for mname, M in allm.items():
                     extra_sets = [{}]
                     if any(p.name == 'ci' for p in rest):
                         extra_sets = [{'ci': v} for v in community_vectors(len(M)).values()]
